@@ -80,6 +80,11 @@ class IrfMultiGaussian(Irf):
         scales = self.scale if self.scale is not None else [1.0 for _ in centers]
         scales = scales if isinstance(scales, list) else [scales]
         scales = np.asarray(scales)
+        if len(scales) != len(centers):
+            raise ModelError(
+                f"len(scales) ({len(scales)}) not equal to the number of gaussians "
+                f"({len(centers)}) in irf {self.label}"
+            )
 
         shift = 0
         if self.shift is not None:
